@@ -13,6 +13,7 @@ from vf.hyp import drive, st
 from vf.runner import Collector
 
 ID = "C16"
+EARLY_ATTRIBUTION = True  # region predicates are cheap scans of the stored case
 LEVEL = "exploration"
 EXHAUSTIVE = True
 RULE = ("Finite domain, enumerated completely: every (qualified name, function, is_complex) returned by "
